@@ -90,6 +90,12 @@ def handleRes (op : String) (args : List String) : Option String :=
     match readGB b with
     | some i => pure ("some " ++ toString i)
     | none => pure "none"
+  | "readgb32", [s] => do
+    -- the same with the float32 rounding of the literal (what the real parser stores)
+    let b ← bytesOfHex s
+    match readGB32 b with
+    | some i => pure ("some " ++ toString i)
+    | none => pure "none"
   | "fmtres", [r] => do
     let r ← decRes r
     pure (hexOfBytes (fmtRes r))
